@@ -8,7 +8,7 @@ ID = "C15"
 THEOREMS = ["C15_transparent", "C15_counts_mul_update", "C15_counts_add_rule",
             "C15_counts_add", "C15_output_is_reference_map", "C15_iters", "C15_state_counts",
             "C15_state_iters", "C15_isolated", "C15_intersection_is_set_intersection",
-            "C15_model_meets_spec"]
+            "C15_model_meets_spec", "C15_write_trace_region", "C15_write_trace_refuted"]
 COQ_IMPORTS = "From FT Require Import Model.Base Model.Obs Model.C15Metrics Model.C15Check."
 CHECK_VO = ["Model/C15Check.v"]
 CHECKER = "c15_checker"
@@ -40,11 +40,11 @@ TRUSTED = ["Coq 8.16.1 kernel (coqc; coqchk in the thorough tier); vm_compute us
            "hand-written Gallina model coq/Model/C15Metrics.v of metrics.py / payload.py operators / the "
            "iterRange, & and << iterators, tied to /repo by the differential correspondence check of this run",
            "harness: harness/check.py, harness/props/c15.py (kernel source generator), CPython 3.12"]
-ASSUMPTIONS = ["read-backs other than the stored tree and maxCoord() are compared between the two runs of the "
+ASSUMPTIONS = ["known finding F-C15-write-trace-insert-no-shape (region 1): populate_write_0 traced on an output "
+               "without declared shape and a populate that inserts below the fiber's maximum -> AssertionError",
+               "read-backs other than the stored tree and maxCoord() are compared between the two runs of the "
                "implementation (off vs on) and not computed by the model: a difference violates transparency, "
                "what their common value should be is property C14's",
-               "a populate_write trace is registered only when the output tensor has a shape (iterators.py "
-               "asserts it; fix S41 narrows the assertion to exactly this case)",
                "trace rows other than the number of 'iter' rows are property C16's; the flush threshold "
                "num_cached_uses is varied by the harness but not modelled",
                "loop nests of the einsum family; rank ids are R0, R1, ... in loop order; the output tensor is "
@@ -111,7 +111,7 @@ def gen_session(rng, name=None, final=False, sparse=None, zero_heavy=False):
     for r in range(len(lv)):
         for ty in range(len(TYPES)):
             p = 0.6 if ty == 0 else 0.2
-            if rng.random() < p and (zshape or ty != 4):
+            if rng.random() < p:
                 traces.append([r, ty])
     rng.shuffle(traces)
     return {"kernel": name, "lv": lv, "a": a, "b": b, "da": da if sa else 0, "db": db if sb else 0,
@@ -140,6 +140,17 @@ def stale_case(rng):
     return {"prior": [p], "final": f}
 
 
+def write_trace_case(rng):
+    """populate_write_0 registered on the output's ranks; output mostly without a declared shape: updates and
+    appends must run, an insertion below the fiber's maximum is the known finding (region 1)"""
+    name = rng.choice(["matmul_mkn", "matmul_kmn", "matmul_knm", "matmul_nkm", "matvec_km", "vecmat", "outer",
+                       "elementwise2", "batched", "scale"])
+    f = gen_session(rng, name, final=True, sparse=rng.choice([0.0, 0.2, 0.5]))
+    f["zshape"] = rng.random() < 0.2
+    f["traces"] = [k for k in f["traces"] if k[1] != 4] + [[r, 4] for r, l in enumerate(f["lv"]) if l[0]]
+    return {"prior": [gen_session(rng)] if rng.random() < 0.3 else [], "final": f}
+
+
 def zero_case(rng):
     """uncompressed ranks, zero rank-0 operands, explicit zeros under a non-zero default: the
     innermost statement runs with an addend of exactly 0"""
@@ -154,6 +165,7 @@ def streams(tier, rng):
     yield ("random", [gen_case(rng) for _ in range(n)], False)
     yield ("stale-files", [stale_case(rng) for _ in range(120 if tier == "quick" else 1200)], False)
     yield ("zero-addends", [zero_case(rng) for _ in range(250 if tier == "quick" else 3000)], False)
+    yield ("write-trace", [write_trace_case(rng) for _ in range(200 if tier == "quick" else 2500)], False)
 
 
 def _op_elems(u, shape, d, below, t):
@@ -366,7 +378,7 @@ def _hard_reset():
     Metrics.traces = {}
 
 
-def _session(s, prefix):
+def _session(s, prefix, final=False):
     """operands and output are built first (their construction is not part of the session)"""
     from fibertree import Metrics
     objs = _build(s)
@@ -375,7 +387,12 @@ def _session(s, prefix):
         Metrics.setNumCachedUses(s["ncu"])
     for r, ty in s["traces"]:
         Metrics.trace(rank_name(r), TYPES[ty])
-    _exec_kernel(s, objs)
+    try:
+        _exec_kernel(s, objs)
+    except AssertionError:
+        if final:
+            raise
+        return objs, None          # an earlier session that died in the kernel: aborted, no endCollect
     dump = copy.deepcopy(Metrics.dump())
     if s["end"]:
         Metrics.endCollect()
@@ -397,7 +414,7 @@ def run_impl(case):
         rb_off = _readbacks(off)
         for s in case["prior"]:
             _session(s, prefix)
-        on, dump = _session(f, prefix)              # the observed session ends with endCollect
+        on, dump = _session(f, prefix, final=True)  # the observed session ends with endCollect
         zon = _snap(on["Z"].getRoot())
         mc_on = _maxcoords(on["Z"].getRoot())
         rb_on = _readbacks(on)
@@ -467,4 +484,4 @@ def shrinks(case):
 
 def search(disagreeing, rng, rnd):
     return ([gen_case(rng) for _ in range(100)] + [stale_case(rng) for _ in range(50)]
-            + [zero_case(rng) for _ in range(50)])
+            + [zero_case(rng) for _ in range(50)] + [write_trace_case(rng) for _ in range(50)])
